@@ -462,6 +462,7 @@ package server
 
 //@ func (*LockDB).UnLock
 //@   requires self != nil && command != nil && !isnil(serverProtocol)
+//@   at call PushUnLockAof assert C07.unlock.persisted-kept: implies(arg6&0x0008 != 0, arg5 && arg2.locked > 0)
 //@   at call GetLockManager after havoc Lock.*, LockManager.locked, LockManager.currentLock, LockManager.currentData, LockManager.locks, LockManager.waitLocks, LockManager.waited, LockManager.refCount, LockManager.lockKey, LockManager.fastKeyValue, LockManagerLockQueue.*, LockManagerWaitQueue.*, LockQueue.*, protocol.LockDBState.*, LockDB.status, LockDB.currentTime
 //@   at call GetLockManager after assume implies(callresult != nil, sectionInv(self, callresult) && callresult.freeLocks != nil && sectionAssumeOnly(callresult))
 //@   at call PriorityMutex.Unlock assert C02.unlock.monitor: sectionInv(self, lockManager)
@@ -957,3 +958,74 @@ package server
 //@   requires self != nil
 //@   ensures C08.open.aligned: implies(isnil(result) && self.mode == 1, self.size >= 12 && (self.size - 12) % 64 == 0)
 //@   modifies AofFile.*, E_byte
+
+// =====================================================================================================
+// C07: what is persisted for a hold and what a restart makes of it.
+// Remaining lifetime: a record stores (CommandTime, ExpriedTime) with CommandTime = min(now, deadline);
+// the restart re-issues the lock with the lifetime still left at that moment, and AddLock sets the new
+// deadline to now + lifetime(unit) + 1. The restored deadline must equal the original one to within one
+// unit of the hold's granularity plus a second.
+// =====================================================================================================
+//@ spec func unitSec(flag) = flag&0x4440 == 0
+//@ spec func unitMin(flag) = flag&0x4400 == 0 && flag&0x0040 != 0
+// lifetime written into the record (E deadline, t0 record time)
+//@ spec func persistedLife(flag, raw, e, t0) = ite(flag&0x4400 != 0, raw, ite(flag&0x0040 != 0, ite(e > t0, min(0xffff, (e - t0 + 59) / 60), 0), ite(e > 0, ite(e > t0, min(0xffff, e - t0), 0), raw)))
+
+//@ func (*Aof).GetAofLockExpriedTime
+//@   requires lockCommand != nil && lock != nil && aofLock != nil
+//@   ensures C07.life.persist: implies(aofLock.CommandTime < 0x10000000000 && lock.expriedTime >= 0 && lock.expriedTime < 0x10000000000 && lock.expriedTime - aofLock.CommandTime <= ite(lockCommand.ExpriedFlag&0x0040 != 0, 0xffff * 60 + 1, 0x10000), result == persistedLife(lockCommand.ExpriedFlag, lockCommand.Expried, lock.expriedTime, aofLock.CommandTime))
+//@   modifies nothing
+
+// lifetime handed to the lock engine by a restart at time t (elapsed = t - t0 since the record was written)
+//@ spec func elapsedMin(d) = ite(d >= 60 && d % 60 == 0, d / 60, d / 60 + 1)
+//@ spec func restoredLife(flag, r, d) = ite(flag&0x4400 != 0, r, ite(flag&0x0040 != 0, ite(d >= 0, ite(r > elapsedMin(d), r - elapsedMin(d), 0), r), ite(r > 0 && d >= 0, ite(r > d, r - d, 0), r)))
+
+//@ func (*Aof).GetLockCommandExpriedTime
+//@   requires lockDb != nil && aofLock != nil
+//@   ensures C07.life.restore: implies(aofLock.CommandTime < 0x10000000000 && lockDb.currentTime >= 0 && lockDb.currentTime < 0x10000000000 && lockDb.currentTime - aofLock.CommandTime <= ite(aofLock.ExpriedFlag&0x0040 != 0, 0xffff * 60, 0xffff), result == restoredLife(aofLock.ExpriedFlag, aofLock.ExpriedTime, lockDb.currentTime - aofLock.CommandTime))
+//@   modifies nothing
+
+// the property-level statement over the two specifications: for a hold with deadline e persisted at t0 <= e
+// (lifetime at most 0xffff units plus the engine's extra second) and reloaded at t in [t0, e), the deadline
+// the engine computes, t + life(unit) + 1, is within one unit plus a second of e and never earlier than e - unit
+//@ lemma deadlineSeconds C07.deadline.seconds: [e int64, t0 int64, t int64] implies(0 <= t0 && t0 < e && e - t0 <= 0x10000 && t0 <= t && t < e && e < 0x10000000000, abs(t + restoredLife(0, persistedLife(0, 0, e, t0), t - t0) + 1 - e) <= 1)
+//@ lemma deadlineMinutes C07.deadline.minutes: [e int64, t0 int64, t int64] implies(0 <= t0 && t0 < e && e - t0 <= 0xffff * 60 + 1 && t0 <= t && t < e && e < 0x10000000000, t + 60 * restoredLife(0x40, persistedLife(0x40, 0, e, t0), t - t0) + 1 - e <= 61 && t + 60 * restoredLife(0x40, persistedLife(0x40, 0, e, t0), t - t0) + 1 - e >= 0 - 60)
+
+// the 64-byte record: every field of an AofLock sits at a fixed offset; Encode and Decode both establish the
+// same relation between the fields and the bytes, so Decode(Encode(x)) == x field by field
+//@ spec func le32b(b, o) = b[o] + b[o+1]*0x100 + b[o+2]*0x10000 + b[o+3]*0x1000000
+//@ spec func le64b(b, o) = le32b(b, o) + le32b(b, o+4)*0x100000000
+//@ spec func aofLayout(l, b) = l.CommandType == b[2] && l.AofOffset == le32b(b, 3) && l.AofIndex == le32b(b, 7) && l.CommandTime == le64b(b, 11) && l.Flag == b[19] && l.DbId == b[20] && bytesAtB(l.LockId, b, 21, 16) && bytesAtB(l.LockKey, b, 37, 16) && l.StartTime == le16b(b, 53) && l.AofFlag == le16b(b, 55) && l.ExpriedTime == le16b(b, 57) && l.ExpriedFlag == le16b(b, 59) && l.Count == le16b(b, 61) && l.Rcount == b[63]
+//@ func (*AofLock).Encode
+//@   requires self != nil
+//@   ensures C07.record.encode: implies(len(self.buf) >= 64, isnil(result) && aofLayout(self, self.buf))
+//@   modifies E_byte
+//@ func (*AofLock).Decode
+//@   requires self != nil
+//@   ensures C07.record.decode: implies(len(self.buf) >= 64, isnil(result) && aofLayout(self, self.buf))
+//@   modifies AofLock.CommandType@self, AofLock.AofOffset@self, AofLock.AofIndex@self, AofLock.CommandTime@self, AofLock.Flag@self, AofLock.DbId@self, AofLock.LockId@self, AofLock.LockKey@self, AofLock.StartTime@self, AofLock.AofFlag@self, AofLock.ExpriedTime@self, AofLock.ExpriedFlag@self, AofLock.Count@self, AofLock.Rcount@self
+
+// what AofChannel.Push writes into the record of a hold (checked where the record is queued)
+//@ func (*AofChannel).Push
+//@   requires self != nil && lock != nil && lockCommand != nil && self.lockDb != nil
+//@   requires C07.ctx: clockSane(self.lockDb) && lock.expriedTime >= 0 && lock.expriedTime < 0x10000000000 && lock.expriedTime - self.lockDb.currentTime <= ite(lockCommand.ExpriedFlag&0x0040 != 0, 0xffff * 60 + 1, 0x10000)
+//@   at call pushAofLock assert C07.record.content: aofLock.CommandType == commandType && aofLock.DbId == dbId && aofLock.LockId == lockCommand.LockId && aofLock.LockKey == lockCommand.LockKey && aofLock.ExpriedFlag == lockCommand.ExpriedFlag && aofLock.CommandTime == min(self.lockDb.currentTime, lock.expriedTime) && aofLock.ExpriedTime == persistedLife(lockCommand.ExpriedFlag, lockCommand.Expried, lock.expriedTime, aofLock.CommandTime)
+//@   at call pushAofLock assert C07.record.counts: implies(unLockCommand == nil, aofLock.Count == lockCommand.Count && aofLock.Rcount == ite(commandType == protocol.COMMAND_UNLOCK, 0, lockCommand.Rcount)) && implies(unLockCommand != nil, aofLock.Count == unLockCommand.Count && aofLock.Rcount == unLockCommand.Rcount)
+//@   at call pushAofLock assert C07.record.value: (aofLock.AofFlag&0x2000 != 0) == (!isnil(lockData) || aofFlag&0x2000 != 0) && implies(!isnil(lockData), aofLock.data == lockData) && aofLock.AofFlag&0x000f == aofFlag&0x000f
+//@   modifies all
+
+// a record and its value go to the same append file: the value is written right behind its record,
+// before the file can be rotated
+//@ func (*Aof).PushLock
+//@   requires self != nil && aofLock != nil
+//@   at call WriteLockData assert C07.value.samefile: calls(WriteLock) == 1 && calls(RewriteAofFile) <= ite(old(self.aofFile) == nil, 1, 0)
+//@   at call RewriteAofFile#2 assert C07.value.written: calls(WriteLock) == 1 && implies(aofLock.AofFlag&0x2000 != 0 && isnil(werr), calls(WriteLockData) == 1)
+//@   modifies all
+// flushing acknowledges waiting requests through the lock engine and rotation rewrites files: both are
+// outside the ordering argument of PushLock and are cut here
+//@ func (*AofFile).Flush
+//@   modifies all
+//@ func (*Aof).RewriteAofFile
+//@   modifies all
+//@ func (*ReplicationManager).PushLock
+//@   modifies all
